@@ -343,9 +343,15 @@ func (n *Net) Enqueue(from *Node, m *protocol.Message, to *Node, kind string) *E
 
 // Decode turns an envelope back into a fresh message, as an application reading from the wire would.
 func (e *Env) Decode() *protocol.Message {
-	m := &protocol.Message{}
-	_ = m.UnmarshalBinary(e.Bytes)
+	m, _ := e.DecodeE()
 	return m
+}
+
+// DecodeE also reports the codec's verdict; an application drops what it cannot decode.
+func (e *Env) DecodeE() (*protocol.Message, error) {
+	m := &protocol.Message{}
+	err := m.UnmarshalBinary(e.Bytes)
+	return m, err
 }
 
 // Deliver hands one envelope to its addressee.
@@ -359,7 +365,11 @@ func (n *Net) Deliver(e *Env) {
 		n.Faults["loss"]++
 		return
 	}
-	m := e.Decode()
+	m, derr := e.DecodeE()
+	if derr != nil {
+		n.Faults["undecodable_dropped"]++
+		return
+	}
 	to.Recv = append(to.Recv, e)
 	n.Delivered = append(n.Delivered, e.ID+e.Kind)
 	var can bool
